@@ -56,6 +56,10 @@ def props_of(v):
     # rule that fails inside one of them is (also) evidence against C18
     if 'C18' in (v.get('root_props') or ()) and v['rule'] in UNSAFE_ROOT_RULES:
         s = set(s) | {'C18'}
+    # what a behavioural schema concludes for a root rests on the unsafe obligations inside that root holding:
+    # where one of them fails on a normal path, the conclusions for the root's own properties are void
+    if v['rule'] in ('O1', 'O2', 'LEAK', 'DROPALL', 'HANDLE', 'HANDLE-DROP', 'INV', 'STRUCTINV') and not v.get('unwinding'):
+        s = set(s) | (set(v.get('root_props') or ()) & set(BEHAVIOURAL))
     return s
 
 
